@@ -341,10 +341,50 @@ func NextStmt(rt *rapid.T, cfg HistCfg, db *model.DB) (model.Stmt, bool) {
 // CreateStmt draws a CREATE TABLE for a table name not yet in db.
 func CreateStmt(rt *rapid.T, maxCols int, db *model.DB) model.Stmt {
 	name := Ident(rt, "table", tablePool)
+	if names := db.TableNames(); len(names) > 0 && rapid.IntRange(0, 7).Draw(rt, "casevariant") == 0 {
+		// table names are case-sensitive: "Orders" next to "orders" is another table
+		base := names[rapid.IntRange(0, len(names)-1).Draw(rt, "variantof")]
+		for _, v := range []string{strings.ToUpper(base), strings.ToUpper(base[:1]) + base[1:], strings.ToLower(base)} {
+			if v != base && db.Tables[v] == nil && okIdent(v) {
+				name = v
+				break
+			}
+		}
+	}
 	for i := 0; db.Tables[name] != nil; i++ {
 		name = fmt.Sprintf("%s_%d", name, i)
 	}
 	s := model.Stmt{Kind: "create", Table: name, Cols: Columns(rt, maxCols)}
+	s.SQL = RenderStmt(NewStyle(rt), s)
+	return s
+}
+
+// FailingInsert draws a single-row INSERT into t that must be refused: the row
+// is one byte too large, or a column gets a value of the wrong type.
+func FailingInsert(rt *rapid.T, t *model.Table) model.Stmt {
+	s := model.Stmt{Kind: "insert", Table: t.Name, Fails: true}
+	row := make([]model.Val, len(t.Cols))
+	vals := make([]interface{}, len(t.Cols))
+	sc := -1
+	for i, c := range t.Cols {
+		row[i] = Value(rt, "fv", c.Type, false, true, 4)
+		vals[i] = row[i].Go()
+		if c.Type == model.TVarchar && sc < 0 {
+			sc = i
+		}
+	}
+	if sc >= 0 && rapid.Bool().Draw(rt, "oversize") {
+		vals[sc] = ""
+		row[sc] = model.Str(strings.Repeat("o", model.MaxRowBytes+1-model.EncodedSize(t.Cols, vals)))
+	} else {
+		ci := rapid.IntRange(0, len(t.Cols)-1).Draw(rt, "badcol")
+		if t.Cols[ci].Type == model.TVarchar {
+			row[ci] = model.Int(5)
+		} else {
+			row[ci] = model.Str("five")
+		}
+	}
+	s.Rows = [][]model.Val{row}
 	s.SQL = RenderStmt(NewStyle(rt), s)
 	return s
 }
